@@ -91,8 +91,9 @@ Check C08_reattach_after_one_pass :
   eol_only_last pairs = true -> attach (layout_pairs (attach pairs)) = attach pairs.
 Print Assumptions C08_reattach_after_one_pass.
 
-(* do-blocks (with the pairs the do_block rule yields when it accepts the layout; with the
-   current grammar that excludes statements with a same-line comment: known finding F29) *)
+(* do-blocks: statements keep their leading and same-line comments, the return expression its
+   leading comments (until b1bc7c1 the grammar rejected the "  // c" the formatter prints after a
+   statement — F29, fixed; the witness stays in corpus/C08) *)
 Theorem C08_do_reattach_fixed_point :
   forall (A : Type) (stmts : list (commented A)) ret, ctrailing ret = None ->
   attach_do (do_layout_pairs stmts ret) (cnode ret) = (stmts, ret).
